@@ -1,7 +1,7 @@
 (* C20 — Same definition and input always give the same result and the same text. *)
 From GO Require Import Base.Str Base.Sort Model.Tokenizer Model.Option Model.Tree Model.Parse Model.Help Model.Dispatch.
 From GO Require Import Proofs.ParseLemmas Proofs.Match Proofs.HelpLemmas Proofs.Perm Proofs.PermParse Proofs.PermRev Proofs.Unknown.
-From GO Require Import Run.Check Model.Complete Proofs.CompletePerm.
+From GO Require Import Run.Check Model.Complete Proofs.CompletePerm Proofs.CompleteE2E Proofs.HelpPerm.
 From Coq Require Import Sorting.Permutation Sorting.Sorted.
 
 (* Go's unspecified map iteration order is "any permutation of the association list".  Every place
@@ -114,4 +114,23 @@ Theorem C20_completion_options_order_independent :
     option_completions specs vfn t (Node i tbl c) w = option_completions specs vfn t (Node i' tbl' c') w.
 Proof. exact option_completions_order_independent. Qed.
 Print Assumptions C20_completion_options_order_independent.
+
+(* the completion result as a whole: the walk over the earlier words and the candidates for the
+   last word, for two trees that differ only in the order of their tables ([wfc]: distinct command
+   keys, option keys without `=` that resolve to declared options, at every node) *)
+Theorem C20_completion_order_independent :
+  forall pf md lower specs vfn afn t root root' st0 words,
+    nsim root root' -> wfc specs root -> wfc specs root' ->
+    complete pf md lower specs vfn afn t root st0 words = complete pf md lower specs vfn afn t root' st0 words.
+Proof. exact complete_order_independent. Qed.
+Print Assumptions C20_completion_order_independent.
+
+(* the help text of a level as a whole (name, synopsis, command list, option list, footer) *)
+Theorem C20_help_output_order_independent :
+  forall specs path is_root n n',
+    nsim n n' -> NoDup (keys (n_cmds n)) -> NoDup (keys (n_cmds n')) ->
+    NoDup (List.map fst (listed_commands n)) ->
+    help_output specs path is_root n = help_output specs path is_root n'.
+Proof. exact help_output_order_independent. Qed.
+Print Assumptions C20_help_output_order_independent.
 
